@@ -23,6 +23,7 @@ Anything unexpected is dumped as ["unknown", type name]; exceptions as
 """
 import datetime
 import json
+import signal
 import sys
 import traceback
 
@@ -182,9 +183,31 @@ class TaggedStr(str):
 
 
 OPS = {"norm": do_norm, "equiv": do_equiv, "find": do_find}
+CASE_SECONDS = 60
+
+
+class CaseTimeout(BaseException):
+    """not an Exception: the per-operation handlers above must not swallow it"""
+
+
+def on_alarm(signum, frame):
+    raise CaseTimeout()
+
+
+signal.signal(signal.SIGALRM, on_alarm)
 
 for line in sys.stdin:
     line = line.strip()
     if line:
         c = json.loads(line)
-        print(json.dumps(OPS[c["op"]](c)))
+        signal.alarm(CASE_SECONDS)
+        try:
+            r = OPS[c["op"]](c)
+        except CaseTimeout:
+            # the equivalence test did not return within the limit: reported as a failure of the test
+            r = {"exc": "Timeout", "where": "harness", "msg": "no result within %d s" % CASE_SECONDS}
+            if c["op"] == "norm":
+                r = {"valid": True, "parse": r}
+        finally:
+            signal.alarm(0)
+        print(json.dumps(r))
